@@ -13,6 +13,9 @@ import warnings
 def main():
     pid, mode, path = sys.argv[1:4]
     warnings.simplefilter("ignore")
+    import logging
+    logging.getLogger("hvsrpy").addHandler(logging.NullHandler())
+    logging.getLogger("hvsrpy").propagate = False
     repo = os.environ.get("HVSRPY_REPO", "/repo")
     sys.path.insert(0, repo)
     specs = json.load(open(path))
